@@ -171,7 +171,7 @@ impl Table {
     //@spec         // otherwise it becomes entry 0 (index 62) and the survivors keep their order behind it
     //@spec         entry.hlen() <= old(self).max_size ==> final(self).view().len() >= 1 && final(self).view()[0] == entry
     //@spec             && final(self).view().subrange(1, final(self).view().len() as int) =~= old(self).view().subrange(0, final(self).view().len() - 1),
-    //@before if self.size + len <= self.max_size {=>proof { lemma_total_push_front(entry, self.entries@); if self.entries@.len() == 0 { assert(total(self.entries@) == 0); } }
+    //@after self.reserve(len);=>proof { lemma_total_push_front(entry, self.entries@); if self.entries@.len() == 0 { assert(total(self.entries@) == 0); } }
     //@end
 
     //@extract src/hpack/decoder.rs Table::consolidate
